@@ -60,12 +60,13 @@ class Node(object):
 
 def parse_tree(text):
     """element tree whose nodes keep the namespace bindings in scope at their start tag"""
-    data = text.encode("utf-8") if isinstance(text, str) else text
+    # text that is already decoded is parsed as such (an encoding declaration inside it is moot)
+    src = io.StringIO(text) if isinstance(text, str) else io.BytesIO(text)
     stack = []
     scopes = [{"xml": XMLNS}]
     pending = []
     root = None
-    for event, obj in ET.iterparse(io.BytesIO(data), events=("start-ns", "end-ns", "start", "end")):
+    for event, obj in ET.iterparse(src, events=("start-ns", "end-ns", "start", "end")):
         if event == "start-ns":
             pending.append(obj)
         elif event == "start":
@@ -183,6 +184,8 @@ def read_value(ch, cns, clocal, problems, where):
     ref = ch.attrib.get("{%s}ref" % PROV)
     xt = ch.attrib.get("{%s}type" % XSI)
     lang = ch.attrib.get("{%s}lang" % XMLNS)
+    if lang == "":
+        lang = None  # xml:lang="" declares that there is no language information
     for k in ch.attrib:
         if k not in ("{%s}ref" % PROV, "{%s}type" % XSI, "{%s}lang" % XMLNS):
             problems.append("%s: unexpected attribute %s on %s" % (where, k, clocal))
